@@ -1,3 +1,4 @@
+-- properties: C04 C11
 /-
   C04 / C11 — the Amiga IFF 8SVX / 16SV container (stand-alone L1 model SfModel/Svx.lean over
   SfModel/SmallSession.lean; helpers SfProofs/SmallSession.lean, SfProofs/Svx.lean).  Property theorems only.
